@@ -35,13 +35,19 @@ def cases(tier, rng, run):
             for sc in (gens.SCOPES[:3] if k == kmax else gens.SCOPES):
                 if pyref.feasible(e, parse_scope(sc)):
                     out.append(Case(f"EVAL\t{e}\t{sc}", f"exh{k}"))
+                    if 1 <= k <= 2 and sc is gens.SCOPES[0] and "n" not in re.findall(r"[A-Za-z_]\w*", e):
+                        # a named expression whose own name is already bound (to something else): the value is
+                        # still the arithmetic value of the expression, not the remembered binding
+                        out.append(Case(f"EVAL\tn={e}\t{sc};n:977", f"exh{k}"))
     n = 30000 if tier == "quick" else 400000
     atoms = ["a", "b", "c", "x_1", "dim", "1", "2", "3", "07", "10", "123456789012345678901234567890"]
     for _ in range(n):
         sz = rng.randint(3, 9 if tier == "quick" else 14)
         e = gens.rand_expr(rng, sz, atoms) if rng.random() < 0.75 else gens.chain(rng, rng.randint(2, 8), atoms, rng.choice([None, ["+", "-"], ["*", "/"], ["^"], ["-", "/"]]))
+        named = None
         if rng.random() < 0.15:
-            e = rng.choice(["n", "out", "x_2"]) + "=" + e
+            named = rng.choice(["n", "out", "x_2"])
+            e = named + "=" + e
         if "^" in e and rng.random() < 0.7:
             # keep exponent towers small enough to evaluate
             sc = rng.choice(["a:2;b:3;c:1;x_1:2;dim:2", "a:1;b:2;c:0;x_1:1;dim:3"])
@@ -50,6 +56,8 @@ def cases(tier, rng, run):
             sc = rng.choice(gens.SCOPES)
         if e.count("^") > 3:
             e = e.replace("^", "*", e.count("^") - 2)
+        if named and rng.random() < 0.5:
+            sc = sc + f";{named}:{rng.choice([0, 1, 4, 977])}"
         if not pyref.feasible(e, parse_scope(sc)):
             continue
         out.append(Case(f"EVAL\t{e}\t{sc}", "rand"))
